@@ -92,7 +92,8 @@ func startFlow(cfg flowCfg, flow string) *flowRun {
 	if cfg.NoReceived {
 		l.NoReceived = "true"
 	}
-	rc := RCfg{Name: "svc.example.com", DialogTimeout: 1200, Listens: []RListen{l}}
+	rc := RCfg{Name: "svc.example.com", DialogTimeout: 1200, Listens: []RListen{l},
+		Routes: []RRoute{{Dests: []string{"static.example.org"}, Protocol: "udp", NextHop: "127.0.3.1:5080"}, {Dests: []string{"static2.example.org"}, Protocol: "udp", NextHop: "127.0.3.3:5060"}}}
 	f := &flowRun{w: StartRelayWorld(SimOpts{}, rc), cfg: cfg, flow: flow}
 	if cfg.CallerTCP {
 		f.conn = f.w.Client("caller", "127.0.0.9", flowLstTCP)
@@ -488,12 +489,62 @@ func flowInterleaved(f *flowRun, k int) {
 	f.bye(a)
 }
 
+// a call that leaves by a static route (To host); afterwards the far side sends requests of the same
+// call through the proxy: each is routed on its own To host / Request-URI
+func flowStaticCall(f *flowRun, k int) {
+	d := &flowDlg{k: k, fromTag: fmt.Sprintf("f%d", k), toTag: fmt.Sprintf("t%d", k)}
+	hop := "127.0.3.1:5080"
+	toStatic := func(m *WMsg) *WMsg {
+		for i := range m.Hdrs {
+			if m.Hdrs[i].Name == "To" {
+				m.Hdrs[i].Value = strings.Replace(m.Hdrs[i].Value, "svc.example.com", "static.example.org", 1)
+			}
+		}
+		m.Start = strings.Replace(m.Start, "sip:bob@svc.example.com", "sip:bob@far.example.net", 1)
+		return m
+	}
+	// the far side is known to the proxy (it has sent a request through it before): the proxy stays on the path
+	pre := MsgSpec{Method: "OPTIONS", RURI: "sip:x@nowhere.example.net", Vias: []string{"SIP/2.0/UDP " + hop + ";branch=" + f.branch()}, From: "<sip:far@static.example.org>;tag=p", To: "<sip:x@nowhere.example.net>", CallID: "far-pre", CSeq: "1 OPTIONS"}.Build()
+	f.fromBackend("far-side-seen", hop, pre, "free")
+	e := f.fromCaller("INVITE-static", toStatic(f.callerReq("INVITE", d, "", "")), hop)
+	rel := e.relayed()
+	if rel == nil || e.dest() != hop {
+		f.abort = "INVITE not relayed to the static next hop"
+		return
+	}
+	if vs, _ := rel.ViaStack(); len(vs) < 2 || vs[0].Host != "127.0.0.1" {
+		f.abort = "the proxy did not stay on the path"
+		return
+	}
+	f.fromBackend("200-static", hop, f.resp(rel, 200, d.toTag), "caller")
+	f.fromCaller("ACK-static", toStatic(f.callerReq("ACK", d, d.toTag, "")), hop)
+	// the far side hangs up / updates: To is the caller (no static route); the Request-URI names the service
+	farReq := func(method, toHost string) *WMsg {
+		d.rcseq++
+		return MsgSpec{Method: method, RURI: "sip:bob@svc.example.com", Vias: []string{"SIP/2.0/UDP " + hop + ";branch=" + f.branch()},
+			From: "<sip:bob@static.example.org>;tag=" + d.toTag, To: "\"Alice\" <sip:alice@" + toHost + ">;tag=" + d.fromTag, CallID: f.callID(d.k), CSeq: fmt.Sprintf("%d %s", 200+d.rcseq, method)}.Build()
+	}
+	f.fromBackend("UPDATE-by-far-side", hop, farReq("UPDATE", "ua.example.net"), "")
+	f.fromBackend("INFO-by-far-side-to-static2", hop, farReq("INFO", "static2.example.org"), "127.0.3.3:5060")
+	f.fromBackend("BYE-by-far-side", hop, farReq("BYE", "ua.example.net"), "")
+	// and a later call of the caller to the other static destination
+	d2 := &flowDlg{k: k + 1, fromTag: "g1"}
+	m := f.callerReq("OPTIONS", d2, "", "")
+	for i := range m.Hdrs {
+		if m.Hdrs[i].Name == "To" {
+			m.Hdrs[i].Value = "<sip:x@static2.example.org>"
+		}
+	}
+	m.Start = "OPTIONS sip:x@far.example.net SIP/2.0"
+	f.fromCaller("OPTIONS-static2", m, "127.0.3.3:5060")
+}
+
 var flowList = []struct {
 	Name string
 	Fn   flowFn
 }{
 	{"basic", flowBasic}, {"callee-bye", flowCalleeBye}, {"cancel", flowCancel}, {"reject", flowReject}, {"retransmit", flowRetransmit}, {"forked", flowForked},
-	{"re-invite", flowReInvite}, {"in-dialog-methods", flowInDialog}, {"subscribe", flowSubscribe}, {"register", flowRegister}, {"interleaved", flowInterleaved},
+	{"re-invite", flowReInvite}, {"in-dialog-methods", flowInDialog}, {"subscribe", flowSubscribe}, {"register", flowRegister}, {"interleaved", flowInterleaved}, {"static-route-call", flowStaticCall},
 }
 
 // ---- oracles ----
@@ -574,6 +625,10 @@ func flowExactlyOnce(requests bool) flowOracle {
 				} else if to != flowCaller || e.Pkts[0].Proto != "udp" {
 					out = append(out, flowViolation{map[bool]string{true: "request-wrong-destination", false: "response-wrong-destination"}[requests], flowDesc(f, e, "expected over UDP to "+flowCaller)})
 				}
+			case strings.HasPrefix(e.Expect, "127.0.3."):
+				if to != e.Expect {
+					out = append(out, flowViolation{"request-wrong-destination", flowDesc(f, e, "expected the static next hop "+e.Expect)})
+				}
 			default:
 				isB := false
 				for _, b := range flowBackends {
@@ -594,7 +649,7 @@ func flowExactlyOnce(requests bool) flowOracle {
 func flowPinned(f *flowRun) []flowViolation {
 	var out []flowViolation
 	for _, e := range f.evs {
-		if !e.Sent.IsRequest() || e.From != "caller" || e.Expect == "" || e.Expect == "free" || e.Expect == "caller" {
+		if !e.Sent.IsRequest() || e.From != "caller" || e.Expect == "" || e.Expect == "free" || e.Expect == "caller" || strings.HasPrefix(e.Expect, "127.0.3.") {
 			continue
 		}
 		if len(e.Pkts) != 1 || e.Pkts[0].To != e.Expect {
@@ -628,7 +683,7 @@ func flowViaRR(f *flowRun) []flowViolation {
 	var out []flowViolation
 	seen := map[string]string{}
 	for _, e := range f.evs {
-		if !e.Sent.IsRequest() || e.From != "caller" || len(e.Pkts) != 1 {
+		if !e.Sent.IsRequest() || e.From != "caller" || len(e.Pkts) != 1 || strings.HasPrefix(e.Pkts[0].To, "127.0.3.") {
 			continue
 		}
 		rel := e.relayed()
@@ -852,8 +907,88 @@ func runOneFlow(name string, ci int, oracles ...flowOracle) []flowViolation {
 	return out
 }
 
+// RunFlowLayoutPairs (C17): every flow under "two Via values on separate lines" and under "the same
+// values comma-joined (requests and echoed responses)": step by step the same destinations.
+func RunFlowLayoutPairs(c *Ctx) {
+	var idx int64
+	for _, fl := range flowList {
+		for _, tcp := range []bool{false, true} {
+			for _, rr := range []bool{false, true} {
+				idx++
+				if !c.Mine(idx+1000) || c.Expired() {
+					continue
+				}
+				if d := flowLayoutPair(fl.Name, tcp, rr); d != "" {
+					c.Violate("flow|destination|"+fl.Name, "flow-layout-destination", d, map[string]any{"layout_flow": fl.Name, "tcp": tcp, "rr": rr})
+				}
+				c.Res.Evaluations++
+				c.Res.Executions += 2
+				c.Res.Nontrivial++
+			}
+		}
+	}
+}
+
+func flowLayoutPair(name string, tcp, rr bool) string {
+	var fn flowFn
+	for _, fl := range flowList {
+		if fl.Name == name {
+			fn = fl.Fn
+		}
+	}
+	run := func(joined bool) []string {
+		f := startFlow(flowCfg{CallerTCP: tcp, TwoVias: true, Joined: joined, CallerRR: rr, MustRR: rr}, name)
+		defer f.close()
+		guard(func() { fn(f, 1) })
+		var out []string
+		for _, e := range f.evs {
+			var ds []string
+			for _, p := range e.Pkts {
+				to := p.To
+				if p.Proto == "tcp" && f.conn != nil && p.Conn == f.conn.Peer().ID() {
+					to = "the caller's connection"
+				}
+				ds = append(ds, p.Proto+">"+to)
+			}
+			for _, d := range e.Dials {
+				ds = append(ds, "dial>"+d)
+			}
+			out = append(out, e.Step+": "+strings.Join(ds, " "))
+		}
+		if f.health != "" {
+			out = append(out, "health: "+f.health)
+		}
+		return out
+	}
+	a, b := run(false), run(true)
+	for i := 0; i < len(a) || i < len(b); i++ {
+		x, y := "<no such step>", "<no such step>"
+		if i < len(a) {
+			x = a[i]
+		}
+		if i < len(b) {
+			y = b[i]
+		}
+		if x != y {
+			return fmt.Sprintf("flow %s (caller over tcp: %v, record-routed: %v): with the two Via values on separate lines -> %q; with the same values comma-joined -> %q", name, tcp, rr, x, y)
+		}
+	}
+	return ""
+}
+
 // ReplayFlow re-runs a recorded (flow, configuration) case; ok=false if raw is not a flow case.
 func ReplayFlow(raw []byte, oracles ...flowOracle) (string, bool) {
+	var lp struct {
+		Flow string `json:"layout_flow"`
+		TCP  bool   `json:"tcp"`
+		RR   bool   `json:"rr"`
+	}
+	if json.Unmarshal(raw, &lp) == nil && lp.Flow != "" {
+		if flowLayoutPair(lp.Flow, lp.TCP, lp.RR) != "" {
+			return "flow-layout-destination", true
+		}
+		return "", true
+	}
 	var cs struct {
 		Flow string `json:"flow"`
 		Cfg  int    `json:"cfg"`
